@@ -166,8 +166,12 @@ class PipelineSuite(Suite):
         return out
 
     def _render_in(self, case, out):
+        # q-values cross as the small fraction (decoys+1)/targets that rounds to the float the code computed; the threshold must cross the
+        # same way, otherwise "q < threshold" differs between exact and float arithmetic exactly when the two floats are equal (0.2 vs 1/5)
+        nden = 2 * len({p for _, _, ps in case["pil"] for p in ps}) + 5
+        thr = gens.small_fraction_of(float(Fraction(case["thr"])), nden) or Fraction(case["thr"])
         return cpair(out["method_term"], render_tabs(case["pil"], out["rec"]), render_pil(case["pil"]),
-                     cbool(case["keep_all"]), cQ(Fraction(case["thr"])),
+                     cbool(case["keep_all"]), cQ(thr),
                      clist(clist(cnat(i) for i in p) for p in out["rec"]["perms"]))
 
     def render_in(self, case):
